@@ -16,7 +16,7 @@ claim("C10",
       "Lean 4 theorems (KB.Props.C10) over the model of coder/normal.go, rev.go and PrefixEnd: decode∘encode = id for all keys and all "
       "revisions < 2^64; encoded order = (key, revision) order for all keys over the alphabet; index-first, contiguity, exact range and "
       "prefix bounds; total classification of index values. The model's constants are regenerated from the source on every run and the "
-      "model is run against Coder/PrefixEnd/ParseRevision/bytes.Compare on generated inputs (incl. malformed).",
+      "model is run against Coder/PrefixEnd/ParseRevision/bytes.Compare on generated inputs (incl. malformed); the range-bound encoding is observed through GetPartitions, and the enclosure itself through List over [K, K+one byte) / [K, other key) for families of keys that extend one another.",
       "Trusted: Lean kernel (+propext, Classical.choice, Quot.sound), kbextract's constant evaluation, the differential coder suite "
       "(sampled), byte = Nat < 256 modelling.",
       "Lean 4 proof (induction on byte lists / digit width) + differential correspondence of the executable model",
